@@ -110,6 +110,9 @@ CASES = [
     C('positive_items', lambda cx: dict(d=cx.val('d', TMap(TInt, TInt))),
       good=["forall(lambda k: (k in result) == (k in d and d[k] > 0))", "forall(lambda k: implies(k in result, result[k] == d[k] + 1))"],
       bad=["forall(lambda k: (k in result) == (k in d))", "forall(lambda k: implies(k in result, result[k] == d[k]))"]),
+    C('union_all', lambda cx: dict(xs=cx.val('xs', TSeq(TSet(TInt)))),
+      good=["forall(lambda v: (v in result) == exists(lambda i: 0 <= i and i < len(xs) and v in xs[i]))"],
+      bad=["forall(lambda v: (v in result) == (len(xs) > 0 and v in xs[0]))", "forall(lambda v: not (v in result))"]),
 ]
 # exceptions that must be seen: (case, exception) - without the raises clause the safety obligation has to fail
 MUST_RAISE = [('lookup_all', 'KeyError'), ('pop_middle', 'IndexError')]
